@@ -12,11 +12,12 @@ from harness import common
 
 PROP = "C14"
 LEAN_MODULE = "Ztr.Props.C14Tree"
-LEAN_DEPS = ["Ztr.Props.C14"]
+LEAN_DEPS = ["Ztr.Props.C14", "Ztr.Props.C14Prefix"]
 THEOREMS = ["Ztr.Discovery.C14_enum_independent", "Ztr.Discovery.C14_enum_independent_roots", "Ztr.Discovery.C14_package_once", "Ztr.Discovery.C14_package_restricts", "Ztr.Discovery.C14_import_gate_S", "Ztr.Discovery.findTestFilesS_none", "Ztr.Discovery.C14_once", "Ztr.Discovery.C14_enum_independent_files",
             "Ztr.Discovery.C14_enum_independent_dirs", "Ztr.Discovery.C14_exact", "Ztr.Discovery.C14_winner_spec",
             "Ztr.Discovery.C14_import_gate", "Ztr.Discovery.C14_import_once", "Ztr.Discovery.C14_module_name_has_package",
-            "Ztr.Discovery.C14_ignore_folders"]
+            "Ztr.Discovery.C14_ignore_folders", "Ztr.Discovery.C14_name_from_longest",
+            "Ztr.Discovery.C14_prefix_is_componentwise", "Ztr.Discovery.C14_order_of_paths_irrelevant"]
 RULE = ("random directory trees (depth <= 4): identifier / non-identifier / ignored (.git, .svn, CVS, node_modules, "
         "__pycache__) directory names, packages with and without __init__.py, 'tests' / 'ftests' / other names, .py / "
         ".pyc / other extensions; files and directories are created in shuffled order; 1-3 (overlapping, repeated, "
